@@ -173,6 +173,7 @@ def gene_models(r2, gtf, deep=False):
     stores []) and has values on others.  deep: GFF3 with a fourth level, mRNA -> part -> exon, beside (or instead of)
     the exons directly under the mRNA.  Returns (lines, models); models is plain JSON."""
     lines, models = [], []
+    emitted = set()
     for g in range(r2.randrange(1, 4)):
         gid = "g%d" % g
         strand = r2.choice("+-")
@@ -215,6 +216,13 @@ def gene_models(r2, gtf, deep=False):
                     if mode == "all_dot" or r2.random() < 0.4:
                         x["strand"] = "." if mode != "some_opposite" else ("-" if strand == "+" else "+")
             tx.append({"tid": tid, "exons": exons, "parts": parts})
+        # GFF3, now and then: an exon that belongs to two transcripts of the gene (Parent=t0,t1, FlyBase style) - it is
+        # an exon of BOTH, so both get the introns next to it
+        if not gtf and not deep and len(tx) >= 2 and tx[0]["exons"] and r2.random() < 0.35:
+            x = r2.choice(tx[0]["exons"])
+            if "strand" not in x and all(x["start"] != y["start"] for y in tx[1]["exons"]):
+                x["attrs"]["Parent"] = [tx[0]["tid"], tx[1]["tid"]]
+                tx[1]["exons"].append(x)
         models.append({"gid": gid, "seqid": seqid, "strand": strand, "tx": tx})
         allx = [x for t in tx for x in t["exons"] + [y for q in t["parts"] for y in q["exons"]]]
         gs, ge = min(x["start"] for x in allx), max(x["end"] for x in allx)
@@ -233,6 +241,9 @@ def gene_models(r2, gtf, deep=False):
                 block += [("exon", x) for x in q["exons"]]
             r2.shuffle(block)
             for ft, x in block:
+                if id(x) in emitted:
+                    continue                    # an exon shared with an earlier transcript: its line is already written
+                emitted.add(id(x))
                 mk = gen_db.gtf_line if gtf else gen_db.gff_line
                 lines.append(mk(seqid, ft, x["start"], x["end"], x.get("strand", strand), list(x["attrs"].items())))
     return lines, models
